@@ -38,6 +38,28 @@ def rewrite_sync(root):
         open(p, "w").write(s)
     return n
 
+def rewrite_afterfunc(root):
+    """time.AfterFunc -> simsync.AfterFunc (same timer; the callback first tells the scheduler in
+    which order the timers were created, so that timers firing at one instant are ordered by that
+    and not by the runtime's timer heap). Returns #call sites."""
+    n = 0
+    for d, dirs, fs in os.walk(root):
+        dirs[:] = [x for x in dirs if x not in ("examples", ".git", "simsync", "e2e")]
+        for f in fs:
+            if not f.endswith(".go") or f.endswith("_test.go"):
+                continue
+            p = os.path.join(d, f)
+            s = open(p).read()
+            c = s.count("time.AfterFunc(")
+            if c == 0:
+                continue
+            n += c
+            s = s.replace("time.AfterFunc(", "simsync.AfterFunc(")
+            if "internal/simsync" not in s:
+                s = s.replace('import (\n', 'import (\n\t"github.com/pion/turn/v5/internal/simsync"\n', 1)
+            open(p, "w").write(s)
+    return n
+
 MAP_EXPRS = ["s.conns", "m.allocations", "a.permissions", "a.tcpConnections", "allocation.tcpConnections", "m.permMap", "mgr.chanMap", "m.trMap"]
 
 def rewrite_map_loops(root):
@@ -69,6 +91,7 @@ def prepare(scratch, race=False, log=None):
     subprocess.run(["rsync", "-a", "--exclude", ".git", "--exclude", "examples", REPO + "/", repo + "/"], check=True)
     nrew = rewrite_sync(repo)
     nmap = rewrite_map_loops(repo)
+    naf = rewrite_afterfunc(repo)
     # overlay
     ov = os.path.join(VERIF, "overlay")
     subprocess.run(["rsync", "-a", ov + "/", repo + "/"], check=True)
@@ -92,7 +115,7 @@ def prepare(scratch, race=False, log=None):
     if os.path.exists(extra):
         with open(os.path.join(sim, "go.sum"), "a") as f:
             f.write(open(extra).read())
-    return {"rewritten_mutex_decls": nrew, "rewritten_map_loops": nmap, "repo": repo, "sim": sim}
+    return {"rewritten_mutex_decls": nrew, "rewritten_map_loops": nmap, "rewritten_afterfunc": naf, "repo": repo, "sim": sim}
 
 def build(scratch, race=False):
     sim = os.path.join(scratch, "sim")
